@@ -227,6 +227,20 @@ def judge_include_bytes(asm, acc, case):
             r = cli.run_cli(args, cwd)
             got = open(outp, 'rb').read() if r.returncode == 0 and os.path.exists(outp) else None
             err = None if got is not None else 'exit %d: %s' % (r.returncode, r.stderr.strip()[-200:])
+        if got is not None and got == exp and case['via'] != 'cli':
+            # the file is rewritten with other contents (same length, then another length) and assembled again in this
+            # process: every assembly must embed what the file holds *now*
+            for step, newsize in enumerate([size, size + 5, size]):
+                content2 = bytes((b + 1 + step) & 0xff for b in content[:newsize]) + bytes([0x77]) * max(0, newsize - size)
+                with open(os.path.join(where, name), 'wb') as f:
+                    f.write(content2)
+                o2 = monitors.observe(asm, path, include_dirs=incs, tap=False)
+                acc['n'] += 1
+                acc['ctr']['include_bytes_rewrites'] += 1
+                if not o2.ok or o2.out != pre + content2 + b'\xee':
+                    core.add_viol(acc, 'include_bytes %s assembled again after the file was rewritten (%d -> %d bytes, step %d): %s; the file now holds %s...' % (
+                        name, size, newsize, step, ('emitted ' + o2.out[3:11].hex() + '...') if o2.ok else (o2.exc['type'] + ': ' + o2.exc['msg']), content2[:8].hex()), case, {})
+                    break
         if got is None:
             core.add_viol(acc, 'include_bytes %s (file in %s dir, cwd=%s, decoy %s size, via %s) failed: %s' % (
                 name, case['loc'], case['cwd'], case['decoy'], case['via'], err), case, {})
